@@ -84,7 +84,7 @@ func init() {
 	register(&Property{
 		ID: "C06",
 		Explanation: "Decides structural necessary conditions of behaviour-preserving minimization: GUARD(entry): minimize consults Grammar.Inputs so that entry states (referenced by index from generated Parse*/lookahead functions) stay apart. GUARD(final): the initial partition consults Tables.FinalStates (reaching `end` stops the parse, which no action signature records). FIELDCOV(minimize): the rule-class key is built from LHS, RuleLen (as popped by the parser), action, node type and flags; every Tables field that holds or is indexed by state numbers is rewritten on the merge path; new Tables fields must be classified; the refinement signature contains own partition, edge symbol and target partition. " +
-			"MUSTPASS(compile-order): minimize runs after conflict resolution and before Optimize. KEYCOPY: the interning containers that partition states by signature store a copy of the signature, never the caller's (reusable) slice. AGREE(memo-key): generated code identifies a lookahead by its entry state (kept apart), never by its final state (merged with other final states). SIGNATURE(lalr-cell): each element of a lookahead state's initial signature is the Lalr cell itself or ruleClass[cell], never a constant standing for a class of cells. LOCKSTEP(rule-copy): the action id that keeps rules with different default-cast behaviour apart is stored into the lalr copy of the rule (the one minimize keys on) whenever it is stored into the grammar copy (the one applyRule is generated from). Not decided: that Moore refinement yields a behaviourally equivalent automaton on all inputs. ACCESSOR(len): IntSliceSet.Len(), the convergence measure of the refinement loop, returns the counter Insert advances per new element. GUARD(final) also requires the protected set to hold the elements of Tables.FinalStates. SIGNATURE(lalr-cell) also requires every (terminal, action) pair of a row to be appended. KEYCOV(cast-action): the key under which generateTables shares default-cast action ids contains both types whose difference requires the cast, so reduce states that cast differently are never merged.",
+			"MUSTPASS(compile-order): minimize runs after conflict resolution and before Optimize. KEYCOPY: the interning containers that partition states by signature store a copy of the signature, never the caller's (reusable) slice. AGREE(memo-key): generated code identifies a lookahead by its entry state (kept apart), never by its final state (merged with other final states). SIGNATURE(lalr-cell): each element of a lookahead state's initial signature is the Lalr cell itself or ruleClass[cell], never a constant standing for a class of cells. LOCKSTEP(rule-copy): the action id that keeps rules with different default-cast behaviour apart is stored into the lalr copy of the rule (the one minimize keys on) whenever it is stored into the grammar copy (the one applyRule is generated from). Not decided: that Moore refinement yields a behaviourally equivalent automaton on all inputs. ACCESSOR(len): IntSliceSet.Len(), the convergence measure of the refinement loop, returns the counter Insert advances per new element. GUARD(final) also requires the protected set to hold the elements of Tables.FinalStates. SIGNATURE(lalr-cell) also requires every (terminal, action) pair of a row to be appended. KEYCOV(cast-action): the key under which generateTables shares default-cast action ids contains both types whose difference requires the cast, so reduce states that cast differently are never merged. The rule-class key also holds the trailing-nullable shape of the rule (F43).",
 		Rules: []string{"GUARD(entry)", "GUARD(final)", "FIELDCOV(minimize)", "MUSTPASS(compile-order)", "KEYCOPY", "LOCKSTEP(rule-copy)", "SIGNATURE(lalr-cell)", "AGREE(memo-key)", "GUARD(optimize-la)", "ACCESSOR(len)", "KEYCOV(cast-action)"},
 		Run: func(c *Ctx) {
 			ruleENTRYGUARD(c)
@@ -282,8 +282,8 @@ func init() {
 		ID: "C01",
 		Explanation: "Decides structural necessary conditions of 'generated parsers accept exactly the language' across table writers (lalr/) and readers (the five committed generated parsers and js's hand-written parse loop): CODEC(parser): every read of the packed table is guarded by 0 <= pos < tmTableLen, -2-action is used as a state only for action < -1, rule tables are indexed only with action >= 0. SIBLING(gotoState): the generated default-encoding gotoState has the same comparisons, index arithmetic and returns as lalr.(*DefaultEnc).gotoState. ENTRY: the i-th exported Parse* starts in state i with a final state that is not an entry state. " +
 			"GUARD(markerfree): RuleLen counts only non-marker symbols. CODEC(optimize), GUARD(usedBase), GUARD(dedupe), GUARD(entry), FIELDCOV(minimize), MUSTPASS(compile-order), MUSTPASS(nonassoc-rewrite): the writers keep the encodings consistent. FRESH(lookahead): every read of p.next in each parse() is dominated by a definition made in the same call (no stale lookahead on a reused Parser). RESET(histogram): reused counter slices of Optimize/pickDefault are zeroed per state. PERITEM(flag): boolean fields of per-item records (Input.NoEoi, ...) are not carried around the loop that builds them. " +
-			"Not decided: correctness of the LR(0)/LALR construction and of the shift/reduce loop as algorithms; the error-location clause. TYPESTATE(lookahead): positions of p.next are read only while a lookahead is fetched. DTX(lr0-shift): a state with a reduction that gains a shift consults the lookahead. GUARD(final): minimize keeps final states apart from ordinary states. DTX(assocmap)/LOCKSTEP(precGroup)/GUARD(optimize-la) run as part of the shared precedence and compile-order rules (see C04, C05). GUARD(dedicated-accept): the state that receives the end-of-input shift is created for its input, or is a goto target that no other state has a transition into (an input nonterminal reachable from itself must not end the parse in an inner context). FIELDCOV(rebuild): a record rebuilt from another record of its type (syntax.Input in Instantiate) gives every field.",
-		Rules: []string{"CODEC(parser)", "SIBLING(gotoState)", "DTX(lr0-shift)", "ENTRY", "GUARD(markerfree)", "CODEC(optimize)", "GUARD(usedBase)", "GUARD(dedupe)", "GUARD(entry)", "GUARD(final)", "FIELDCOV(minimize)", "MUSTPASS(compile-order)", "MUSTPASS(nonassoc-rewrite)", "FRESH(lookahead)", "TYPESTATE(lookahead)", "RESET(histogram)", "PERITEM(flag)", "DTX(assocmap)", "GUARD(optimize-la)", "LOCKSTEP(precGroup)", "GUARD(dedicated-accept)", "FIELDCOV(rebuild)"},
+			"Not decided: correctness of the LR(0)/LALR construction and of the shift/reduce loop as algorithms; the error-location clause. TYPESTATE(lookahead): positions of p.next are read only while a lookahead is fetched. DTX(lr0-shift): a state with a reduction that gains a shift consults the lookahead. GUARD(final): minimize keeps final states apart from ordinary states. DTX(assocmap)/LOCKSTEP(precGroup)/GUARD(optimize-la) run as part of the shared precedence and compile-order rules (see C04, C05). GUARD(dedicated-accept): the state that receives the end-of-input shift is created for its input, or is a goto target that no other state has a transition into (an input nonterminal reachable from itself must not end the parse in an inner context). FIELDCOV(rebuild): a record rebuilt from another record of its type (syntax.Input in Instantiate) gives every field. COPY(struct-slices): a value copy of a struct (clone := *last) whose slice field a callee writes in place (addShift inserts into shifts) is given its own backing array before that call; otherwise the end-of-input transition of the input's private final state is written into the shared state's array and inner contexts accept too.",
+		Rules: []string{"CODEC(parser)", "SIBLING(gotoState)", "DTX(lr0-shift)", "ENTRY", "GUARD(markerfree)", "CODEC(optimize)", "GUARD(usedBase)", "GUARD(dedupe)", "GUARD(entry)", "GUARD(final)", "FIELDCOV(minimize)", "MUSTPASS(compile-order)", "MUSTPASS(nonassoc-rewrite)", "FRESH(lookahead)", "TYPESTATE(lookahead)", "RESET(histogram)", "PERITEM(flag)", "DTX(assocmap)", "GUARD(optimize-la)", "LOCKSTEP(precGroup)", "GUARD(dedicated-accept)", "FIELDCOV(rebuild)", "COPY(struct-slices)"},
 		Run: func(c *Ctx) {
 			ruleTABLEIDX(c)
 			ruleGOTOSIBLING(c)
@@ -302,6 +302,7 @@ func init() {
 			rulePEEK(c)
 			ruleREBUILD(c, "syntax", "compiler", "grammar", "lalr")
 			ruleACCEPTSTATE(c)
+			ruleSTRUCTCOPY(c, "lalr")
 			ruleRESET(c, "lalr")
 			rulePERITEM(c, "compiler", "syntax", "lalr", "grammar")
 		},
@@ -310,13 +311,15 @@ func init() {
 		ID: "C02",
 		Explanation: "Decides structural necessary conditions of 'listener events reproduce the derivation' on every case of every committed generated applyRule: STACKIDX: each stack reference stack[len(stack)-K] / stack[len(stack)-A:len(stack)-B] of case i lies inside the tmRuleLen[i] symbols of rule i (inside the prefix for mid-rule nonterminals), ranges are non-empty, fixTrailingWS gets exactly the whole right-hand side. " +
 			"GUARD(markerfree) and LOOPSHAPE(marker-transparent): state markers never count as symbols and never stop a scan of the right-hand side (HasTrailingNulls decides whether trailing whitespace is trimmed). VARIANT(trim-trailing-empty): all trailing empty symbols are trimmed from a node's range. SIBLING(list-recursion): every recursive list rule built by Expand is left-recursive unless the list is flagged right-recursive (elements are reported in source order). TYPESTATE(lookahead): the offset given to an empty node (p.next.offset) is read only while the lookahead is fetched, never after it was consumed by a shift. FIELDROLE(input): each branch on a flag of syntax.Input reads the flag its audited role names (node types are collected from non-Synthetic inputs; NoEoi is a different bool on the same record). " +
-			"Not decided: that the range is the right sub-range, post-order, node types; list expansion order. SOURCE(identity): every generated lexer's Init keeps the caller's string in l.source unmodified (reported ranges are offsets into the caller's text; a byte-order mark is skipped by moving the offset). LOOPSHAPE(marker-transparent) also rejects a marker test on one fixed position of a right-hand side outside a loop. TMPL(switch-guard): every grammar predicate that can make a case arm of applyRule appear (HasTrailingNulls for the fixTrailingWS arm) also feeds the guard under which `switch rule {` is generated.",
-		Rules: []string{"STACKIDX", "GUARD(markerfree)", "LOOPSHAPE(marker-transparent)", "VARIANT", "SIBLING(list-recursion)", "TYPESTATE(lookahead)", "FIELDROLE(input)", "SOURCE(identity)", "TMPL(switch-guard)"},
+			"Not decided: that the range is the right sub-range, post-order, node types; list expansion order. SOURCE(identity): every generated lexer's Init keeps the caller's string in l.source unmodified (reported ranges are offsets into the caller's text; a byte-order mark is skipped by moving the offset). LOOPSHAPE(marker-transparent) also rejects a marker test on one fixed position of a right-hand side outside a loop. TMPL(switch-guard): every grammar predicate that can make a case arm of applyRule appear (HasTrailingNulls for the fixTrailingWS arm) also feeds the guard under which `switch rule {` is generated. BOUND(trim-floor): the loops stripping trailing empty symbols go down to index 1 in reportRange (rhs[0] is read afterwards) and to index 0 in parse()/fixTrailingWS. FIELDCOV(minimize): the rule-class key of DFA minimisation contains whether a rule ends with a nullable symbol, so reduce states of rules whose ranges are trimmed (fixTrailingWS is selected by rule number) are not merged with those of rules that are not.",
+		Rules: []string{"STACKIDX", "GUARD(markerfree)", "LOOPSHAPE(marker-transparent)", "VARIANT", "SIBLING(list-recursion)", "TYPESTATE(lookahead)", "FIELDROLE(input)", "SOURCE(identity)", "TMPL(switch-guard)", "BOUND(trim-floor)", "FIELDCOV(minimize)"},
 		Run: func(c *Ctx) {
 			rulePEEK(c)
 			ruleSWITCHGUARD(c)
 			ruleSOURCEID(c)
 			ruleFIELDROLE(c)
+			ruleTRIMFLOOR(c)
+			ruleMINIMIZE(c)
 			ruleSTACKIDX(c)
 			ruleMARKERFREE(c)
 			ruleMARKERLOOPS(c)
@@ -357,8 +360,8 @@ func init() {
 	register(&Property{
 		ID: "C20",
 		Explanation: "Decides structural necessary conditions of 'parse events form a well-nested tree': VARIANT(flush-after-extend): in recoverFromError the error node is flushed only after its range was extended over pending invalid tokens (otherwise tokens inside the node are reported after it). VARIANT(trim-trailing-empty): every parse loop that trims trailing empty symbols does so in a loop (all of them), so a node never runs into following whitespace/comments that are still pending. " +
-			"STACKIDX: reported ranges are non-empty sub-ranges of the rule. Not decided: the tree builder, nesting under recovery in general. INITCOV: every field of Lexer/Parser/TokenStream that another method modifies is assigned on every path by Init (or by the first block of parse()), so no run state of an earlier input (pending tokens of a cancelled parse) reaches the next input's event stream; four audited exemptions. INITCOV: every field of Lexer/Parser/TokenStream that another method modifies is assigned on every path by Init (or by the first block of parse()), so no run state of an earlier input (pending tokens of a cancelled parse) reaches the next input's event stream; audited exemptions are listed in the rule. GUARD(root-adopts-all): builder.build() of each generated ast package either fails unless one node is left on the stack or adds the file node with an end offset beyond the input, so that every reported node (an empty node at the very end included) is in the tree. GUARD(sibling-boundary) as in C21. TMPL(switch-guard) as in C02 (whitespace trimming is generated for every grammar that needs it). LOOPSHAPE(marker-transparent): the predicates that decide where a rule's reported range ends (HasTrailingNulls and siblings) look through state markers, so fixTrailingWS is generated for `X: a Nullable .marker` too (otherwise the node runs into the following whitespace and is reported before the comments inside it).",
-		Rules: []string{"INITCOV", "VARIANT", "STACKIDX", "GUARD(root-adopts-all)", "GUARD(sibling-boundary)", "TMPL(switch-guard)", "LOOPSHAPE(marker-transparent)"},
+			"STACKIDX: reported ranges are non-empty sub-ranges of the rule. Not decided: the tree builder, nesting under recovery in general. INITCOV: every field of Lexer/Parser/TokenStream that another method modifies is assigned on every path by Init (or by the first block of parse()), so no run state of an earlier input (pending tokens of a cancelled parse) reaches the next input's event stream; four audited exemptions. INITCOV: every field of Lexer/Parser/TokenStream that another method modifies is assigned on every path by Init (or by the first block of parse()), so no run state of an earlier input (pending tokens of a cancelled parse) reaches the next input's event stream; audited exemptions are listed in the rule. GUARD(root-adopts-all): builder.build() of each generated ast package either fails unless one node is left on the stack or adds the file node with an end offset beyond the input, so that every reported node (an empty node at the very end included) is in the tree. GUARD(sibling-boundary) as in C21. TMPL(switch-guard) as in C02 (whitespace trimming is generated for every grammar that needs it). LOOPSHAPE(marker-transparent): the predicates that decide where a rule's reported range ends (HasTrailingNulls and siblings) look through state markers, so fixTrailingWS is generated for `X: a Nullable .marker` too (otherwise the node runs into the following whitespace and is reported before the comments inside it). BOUND(trim-floor) as in C02.",
+		Rules: []string{"INITCOV", "VARIANT", "STACKIDX", "GUARD(root-adopts-all)", "GUARD(sibling-boundary)", "TMPL(switch-guard)", "LOOPSHAPE(marker-transparent)", "BOUND(trim-floor)"},
 		Run: func(c *Ctx) {
 			ruleINITCOV(c, "TokenStream", "Lexer", "Parser")
 			ruleSWITCHGUARD(c)
@@ -367,6 +370,7 @@ func init() {
 			ruleRECOVERY(c)
 			ruleSTACKIDX(c)
 			ruleMARKERLOOPS(c)
+			ruleTRIMFLOOR(c)
 		},
 	})
 }
